@@ -5,7 +5,7 @@ import os
 import shutil
 import sys
 
-DIRS = ['.', 'sub', '..', 'inc']                 # where the included file lives relative to the includer ('inc' = a -i directory)
+DIRS = ['.', 'sub', '..', 'inc']                 # where the included file lives relative to the includer ('inc' = a -i directory; 'self', used by one family only = the main file's directory given as -i)
 POSITIONS = ['first', 'middle', 'last']
 STYLES = ['plain', 'squote', 'dquote', 'comment']
 
@@ -23,7 +23,7 @@ def default_body(name, ident):
 
 
 def include_line(child):
-    rel = child['name'] if child['where'] in ('.', 'inc') else child['where'] + '/' + child['name']
+    rel = child['name'] if child['where'] in ('.', 'inc', 'self') else child['where'] + '/' + child['name']
     st = child['style']
     if st == 'squote':
         return "include '%s'" % rel
@@ -95,7 +95,8 @@ def write(root, base, decoy_dirs=(), shadow_ancestors=False):
             if isinstance(ln, tuple):
                 c = ln[1]
                 lines.append(include_line(c))
-                cdir = inc if c['where'] == 'inc' else os.path.normpath(os.path.join(directory, c['where']))
+                # 'inc' = the -i directory; 'self' = the directory of the main file, which the driver then ALSO passes as a -i directory (written as a plain name)
+                cdir = inc if c['where'] == 'inc' else (src if c['where'] == 'self' else os.path.normpath(os.path.join(directory, c['where'])))
                 place(c, cdir, tuple(ancestors) + (directory,))
             else:
                 lines.append(ln)
